@@ -4,6 +4,7 @@
 mod common;
 mod run_bfv;
 mod run_bitvec;
+mod run_ranksel;
 
 use common::*;
 use std::path::PathBuf;
@@ -61,6 +62,8 @@ fn main() {
     match (runner.as_str(), &replay) {
         ("bitvec", None) => run_bitvec::run(&mut ctx),
         ("bitvec", Some(l)) => run_bitvec::replay(&mut ctx, l),
+        ("ranksel", None) => run_ranksel::run(&mut ctx),
+        ("ranksel", Some(l)) => run_ranksel::replay(&mut ctx, l),
         ("bfv", None) => run_bfv::run(&mut ctx),
         ("bfv", Some(l)) => run_bfv::replay(&mut ctx, l),
         (r, _) => {
